@@ -37,49 +37,52 @@ def run(ctx):
     steps = []   # dict(desc, rows(impl output), model_expr)
     for h in range(nhist):
         f = F.gen_forest(rng, 1, nmax)
-        soma_mode = str(rng.choice(['none', 'fixed']))
-        x = F.mk_neuron(f, soma=None)
-        if soma_mode == 'fixed':
-            x.soma = int(f['ids'][int(rng.integers(len(f['ids'])))])
-        hist = []
-        steps.append(dict(desc=dict(start=f, history=[]), neuron_rows=F.table_of(x), model=None, op='construct',
-                          nontrivial=F.nontrivial(f), missing=F.has_missing(x), soma_ok=soma_ok(x)))
-        for k in range(int(rng.integers(1, maxops + 1))):
-            if len(x.nodes) == 0:
-                break
-            name = skelops.STRUCTURAL[int(rng.integers(len(skelops.STRUCTURAL)))]
-            op = skelops.OPS[name]
-            st, p = guarded(op.gen, rng, x)
-            if st != 'ok' or p is None:
-                continue
-            inplace = bool(rng.integers(2)) if op.inplace_kw else False
-            prev = F.table_of(x)
-            hist = hist + [dict(op=name, params=p, inplace=inplace)]
-            desc = dict(start=f, soma=soma_mode, history=hist)
-            target = x if inplace else x
-            st, res = guarded(op.apply, x, p, inplace)
-            ctx.count('op:' + name)
-            if st != 'ok':
-                ctx.count('rejected_or_crashed:' + name)
-                steps.append(dict(desc=desc, error=(st, res), op=name, params=p, nontrivial=F.nontrivial(f)))
-                # a failed operation must leave a well-formed neuron behind, too
-                steps.append(dict(desc=dict(desc, note='input after failed op'), neuron_rows=F.table_of(x), model=None, op=name + ':after-failure',
-                                  nontrivial=F.nontrivial(f), missing=F.has_missing(x), soma_ok=soma_ok(x)))
-                continue
-            outs = res if isinstance(res, list) else ([res] if not hasattr(res, 'neurons') else list(res))
-            if inplace:
-                outs = [x]
-            for o in outs:
-                model = None
-                if getattr(op, 'model', None) and len(outs) == 1:
-                    model = op.model(prev, p, o)
-                steps.append(dict(desc=desc, neuron_rows=F.table_of(o), model=model, op=name, params=p,
-                                  nontrivial=F.nontrivial(f), missing=F.has_missing(o), soma_ok=soma_ok(o)))
-            if not inplace:
-                # the input left behind must still be well formed
-                steps.append(dict(desc=dict(desc, note='input left behind'), neuron_rows=F.table_of(x), model=None, op=name + ':input',
-                                  nontrivial=F.nontrivial(f), missing=F.has_missing(x), soma_ok=soma_ok(x)))
-            x = outs[int(rng.integers(len(outs)))] if outs else x
+        be = str(rng.choice(['fastcore', 'fastcore', 'igraph', 'nx']))
+        ctx.count('backend:' + be)
+        with F.backend(be):
+            soma_mode = str(rng.choice(['none', 'fixed']))
+            x = F.mk_neuron(f, soma=None)
+            if soma_mode == 'fixed':
+                x.soma = int(f['ids'][int(rng.integers(len(f['ids'])))])
+            hist = []
+            steps.append(dict(desc=dict(start=f, backend=be, history=[]), neuron_rows=F.table_of(x), model=None, op='construct',
+                              nontrivial=F.nontrivial(f), missing=F.has_missing(x), soma_ok=soma_ok(x)))
+            for k in range(int(rng.integers(1, maxops + 1))):
+                if len(x.nodes) == 0:
+                    break
+                name = skelops.STRUCTURAL[int(rng.integers(len(skelops.STRUCTURAL)))]
+                op = skelops.OPS[name]
+                st, p = guarded(op.gen, rng, x)
+                if st != 'ok' or p is None:
+                    continue
+                inplace = bool(rng.integers(2)) if op.inplace_kw else False
+                prev = F.table_of(x)
+                hist = hist + [dict(op=name, params=p, inplace=inplace)]
+                desc = dict(start=f, backend=be, soma=soma_mode, history=hist)
+                target = x if inplace else x
+                st, res = guarded(op.apply, x, p, inplace)
+                ctx.count('op:' + name)
+                if st != 'ok':
+                    ctx.count('rejected_or_crashed:' + name)
+                    steps.append(dict(desc=desc, error=(st, res), op=name, params=p, nontrivial=F.nontrivial(f)))
+                    # a failed operation must leave a well-formed neuron behind, too
+                    steps.append(dict(desc=dict(desc, note='input after failed op'), neuron_rows=F.table_of(x), model=None, op=name + ':after-failure',
+                                      nontrivial=F.nontrivial(f), missing=F.has_missing(x), soma_ok=soma_ok(x)))
+                    continue
+                outs = res if isinstance(res, list) else ([res] if not hasattr(res, 'neurons') else list(res))
+                if inplace:
+                    outs = [x]
+                for o in outs:
+                    model = None
+                    if getattr(op, 'model', None) and len(outs) == 1:
+                        model = op.model(prev, p, o)
+                    steps.append(dict(desc=desc, neuron_rows=F.table_of(o), model=model, op=name, params=p,
+                                      nontrivial=F.nontrivial(f), missing=F.has_missing(o), soma_ok=soma_ok(o)))
+                if not inplace:
+                    # the input left behind must still be well formed
+                    steps.append(dict(desc=dict(desc, note='input left behind'), neuron_rows=F.table_of(x), model=None, op=name + ':input',
+                                      nontrivial=F.nontrivial(f), missing=F.has_missing(x), soma_ok=soma_ok(x)))
+                x = outs[int(rng.integers(len(outs)))] if outs else x
     # evaluate the verified checker (and the model where available) in Coq
     exprs = []
     for s in steps:
